@@ -415,6 +415,14 @@ fn hover_projects() -> Vec<(&'static str, Vec<(&'static str, &'static str)>)> {
             ],
         ),
         (
+            // a field of one name and two types, read at the same offsets in two files of the package
+            "field-reads-at-same-positions",
+            vec![
+                ("main.gom", "package Main\n\nstruct Pa { v_q: uint32, pad: int32 }\nfn main() -> unit {\n    let v_p: Pa = Pa(111u32, 2);\n    let v_r: uint32 = v_p.v_q;\n    string_println(uint32_to_string(v_r))\n}\n"),
+                ("othr.gom", "package Main\n\nstruct Pb { v_q: string, pad: int32 }\nfn othr() -> unit {\n    let v_p: Pb = Pb(\"abcd\", 2);\n    let v_r: string = v_p.v_q;\n    string_println(v_r)\n}\n"),
+            ],
+        ),
+        (
             "closure-parameters-at-same-positions-no-imports",
             vec![
                 ("main.gom", "package Main\n\nfn main() -> unit {\n    let v_f: (string) -> bool = |w_x| w_x == \"a\";\n    let v_b: bool = v_f(\"a\");\n    string_println(bool_to_string(v_b))\n}\n"),
@@ -473,7 +481,7 @@ impl Family for QueryAgree {
         &["C20"]
     }
     fn rule(&self) -> &'static str {
-        "on the 11 complete seed programs: hover at every character of every occurrence of a `v_*` binder or use must report the binder's declared type; at every `x.`/`Path::` cursor each offered completion, inserted (methods with synthesised arguments), must type-check; 5 projects whose packages have several files (same binder names and positions, different types; a package none of whose files imports anything; closures at the same offsets in two files, with and without imports): hover on every annotated binder and its uses in every file must report the file's own declaration, and every occurrence of an unannotated closure parameter in a file gets one type; distinct = distinct (seed, occurrence) / (seed, cursor, item)"
+        "on the 11 complete seed programs: hover at every character of every occurrence of a `v_*` binder or use must report the binder's declared type; at every `x.`/`Path::` cursor each offered completion, inserted (methods with synthesised arguments), must type-check; 6 projects whose packages have several files (same binder names and positions, different types; a package none of whose files imports anything; closures at the same offsets in two files, with and without imports; a field of one name and two types read at the same offsets in two files): hover on every annotated binder and its uses in every file must report the file's own declaration, and every occurrence of an unannotated closure parameter in a file gets one type; distinct = distinct (seed, occurrence) / (seed, cursor, item)"
     }
     fn cases(&self, _tier: Tier) -> Box<dyn Iterator<Item = Value> + '_> {
         Box::new((0..SEEDS.len()).map(|i| json!({"seed": i})).chain((0..hover_projects().len()).map(|i| json!({"project": i}))))
@@ -496,6 +504,11 @@ impl Family for QueryAgree {
                 for t in lexer::lex(text) {
                     let Some(want) = declared.get(t.text) else { continue };
                     let (s, e): (usize, usize) = (u32::from(t.range.start()) as usize, u32::from(t.range.end()) as usize);
+                    // the declaration of a struct's field is neither an expression nor a binder
+                    let line_start = text[..s].rfind('\n').map(|i| i + 1).unwrap_or(0);
+                    if text[line_start..].starts_with("struct ") {
+                        continue;
+                    }
                     for off in s..e {
                         let (line, col) = line_col(text, off);
                         checks += 1;
